@@ -80,7 +80,27 @@ func genRelated(r *hx.RNG, v oracle.Val) (oracle.Val, string) {
 	if v.Form != oracle.Finite {
 		return genCmpVal(r), "unrelated"
 	}
-	switch r.Intn(10) {
+	switch r.Intn(11) {
+	case 10: // b's lowest words are a's words (b = extra words in front of a's digit string): the two mantissas agree word
+		// for word at equal slice indexes although, aligned at the top as a comparison must align them, they differ
+		pad := (19 - oracle.Digits(v.Coef)%19) % 19
+		a := new(big.Int).Mul(v.Coef, oracle.Pow10(pad))
+		na := oracle.Digits(a) / 19
+		if na < 8 { // (block-wise shortcuts need a few words): repeat a's digit string
+			rep := new(big.Int).Set(a)
+			for ; na < int64(r.Range(8, 14)); na += oracle.Digits(rep) / 19 {
+				a.Mul(a, oracle.Pow10(oracle.Digits(rep)))
+				a.Add(a, rep)
+			}
+		}
+		k := int64(r.Range(1, 9))
+		front := hx.CoefOf(r.Digits(int(19 * k)))
+		bc := new(big.Int).Mul(front, oracle.Pow10(oracle.Digits(a)))
+		bc.Add(bc, a)
+		lead := v.LeadExp()
+		// both values keep the leading exponent; the first value of the case becomes the (possibly repeated) digit string a
+		c16AltA = &oracle.Val{Form: oracle.Finite, Neg: v.Neg, Coef: a, Exp: lead - oracle.Digits(a)}
+		return inRange(oracle.Val{Form: oracle.Finite, Neg: v.Neg, Coef: bc, Exp: lead - oracle.Digits(bc)}), "low-words-equal-the-shorter-value"
 	case 8: // the same words plus extra low words taken from the edge set (pairs of them sum to 2^64 - 1 or 2^64)
 		pad := (19 - oracle.Digits(v.Coef)%19) % 19
 		k := r.Range(1, 4)
@@ -155,9 +175,15 @@ func sgn(x int) int {
 	return 0
 }
 
+var c16AltA *oracle.Val // set by genRelated when the relation also replaces the first value
+
 func c16Case(c *hx.Ctx, r *hx.RNG, idx int64) {
 	a := inRange(genCmpVal(r))
+	c16AltA = nil
 	b, rel := genRelated(r, a)
+	if c16AltA != nil {
+		a = inRange(*c16AltA)
+	}
 	third, _ := genRelated(r, b)
 	if r.Bool() {
 		third = genCmpVal(r)
